@@ -79,7 +79,7 @@ CHECKS = {
                   "CopelandMethod with symbolic scheme (sort order decided by forks)",
         text="Scores and victory/equality/defeat counts equal the definition for any mirror-consistent table (n<=4, thorough 5); end "
              "to end the ranking is by decreasing definition score, tied iff equal, and the feature dictionaries hold the definition's "
-             "numbers, for all valid schemes on each path; also on symbolic datasets ((2,2),(3,1),(3,2),(2,3); thorough (3,3),(4,1)).",
+             "numbers, for all valid schemes on each path; also on symbolic datasets ((2,2),(3,1),(3,2),(2,3); thorough (4,1),(2,4)).",
         design="4/C13"),
     "C19": dict(
         technique="fork-mode symbolic execution of ScoringScheme's constructor, __mul__, equivalence tests and nickname on fully "
@@ -95,7 +95,7 @@ CHECKS = {
              "ite-chains over all rankings with ties, n<=4); ParCons with bounds above/below component sizes, CPLEX stand-in/absent: "
              "consensus consistent with the reported weak partitioning = library partition, flag exactly 'nothing delegated', flagged "
              "results proved optimal; multi-component strata up to n=7; the partition is also checked on symbolic datasets (all datasets "
-             "with (n,m) in {(2,2),(3,1),(3,2),(2,3)}, thorough (3,3),(4,1), and all valid schemes in one exploration each).",
+             "with (n,m) in {(2,2),(3,1),(3,2),(2,3)}, thorough (4,1),(2,4), and all valid schemes in one exploration each).",
         design="4/C06",
         note=TB + "; ILP stand-in contract; real igraph on concrete graphs"),
     "C07": dict(
